@@ -48,8 +48,16 @@ BOOLS = [(r"\btrue\b", "false"), (r"\bfalse\b", "true")]
 def code_region(lines):
     """indices of lines before the first #[cfg(test)] that are code (not comments / docs / attributes / log macros)"""
     out = []
+    in_block = False
     for i, l in enumerate(lines):
         s = l.strip()
+        if in_block:
+            if "*/" in s:
+                in_block = False
+            continue
+        if s.startswith("/*") and "*/" not in s:
+            in_block = True
+            continue
         if s.startswith("#[cfg(test)]"):
             break
         if not s or s.startswith("//") or s.startswith("#[") or s.startswith("#!") or s.startswith("use ") or s.startswith("*") or s.startswith("/*"):
